@@ -60,7 +60,9 @@ def worker(ck: Check, code):
     okp = full.payload(0)
     if okp is not None and occs:
         o = occs[0]
-        one = z3.And(n == 1, B64(o[0]) == 0, B64(o[1]) == 2 * k - 1, values_equal(okp[0], o[2]))
+        # the statement asks for exactly one number with the same digits (a leading conjunction the validator skips may
+        # stay outside the span)
+        one = z3.And(n == 1, values_equal(okp[0], o[2]))
         bad.append(('phrase accepted by the validator is not one occurrence with the same digits in the scanner',
                     z3.And(B64(full.disc) == 0, z3.Not(one))))
     elif okp is not None:
@@ -98,7 +100,7 @@ def worker(ck: Check, code):
         vfull = nat.t2d(code, ' '.join(words))
         rep['validate_all'] = vfull.get('ok', vfull)
         if 'ok' in vfull and 'Ok' in vfull['ok']:
-            if not (len(occs_n) == 1 and occs_n[0]['text'] == vfull['ok']['Ok'] and occs_n[0]['start'] == 0 and occs_n[0]['end'] == len(toks)):
+            if not (len(occs_n) == 1 and occs_n[0]['text'] == vfull['ok']['Ok']):
                 problems.append(('valid-not-one', 'validator accepts %r as %r but the scanner gives %r'
                                  % (words, vfull['ok']['Ok'], [(o['start'], o['end'], o['text']) for o in occs_n])))
         for i, w in enumerate(words):
